@@ -19,6 +19,10 @@ Line-protocol driver for C11 (Model/Chunks.lean).
   ckpt rl its vars file file ...   Model/Checkpoint.readCheckpoints; vars = aurel names (comma separated);
       file = itName:fileNo|-:dset;dset;... ; dset = thorn,var,it,tl,rl|-,c|-,gx,gy,gz,ox,oy,oz,time,sz,sy,sx,v0
       -> `ok it=..|t=..|name=<arr>/<arr>|...` (arr = d0xd1xd2:v,v,..), `err`
+  ckptm rl its vars file file ...  the same through Model/MultiThorn.readCheckpointsM (literal multi-thorn branch)
+  gvar cmax|- rl its vars file ...  Model/MultiThorn.readGroupOrVar (read_ET_group_or_var); vars = ET names as handed
+      over (comma separated); cmax = `-` ('in file') or the integer; file as for ckpt (itName unused)
+      -> `ok t=..|name=<arr>/<arr>|...`, `err`
   var2et name / et2var name / comps name    the generated name maps
 
 Output: `ok d0 d1 d2 : v v v ...` (`ok empty` for an array without elements), `err`.
@@ -26,8 +30,9 @@ Output: `ok d0 d1 d2 : v v v ...` (`ok empty` for an array without elements), `e
 import AurelVerif.Model.Chunks
 import AurelVerif.Model.Restarts
 import AurelVerif.Model.Checkpoint
+import AurelVerif.Model.MultiThorn
 import AurelVerif.Gen.VarMaps
-open AurelVerif.Chunks AurelVerif.Restarts AurelVerif.Checkpoint
+open AurelVerif.Chunks AurelVerif.Restarts AurelVerif.Checkpoint AurelVerif.MultiThorn
 
 def mkBlock (v0 sz sy sx : Nat) : Arr3 Nat :=
   (List.range sz).map fun z => (List.range sy).map fun y => (List.range sx).map fun x =>
@@ -184,6 +189,28 @@ def step (line : String) : String :=
           ++ String.join (T.cols.map fun kc => "|" ++ kc.1 ++ "=" ++ "/".intercalate (kc.2.map showCell))
       | none => "err"
     | _, _, _ => "bad-op"
+  | "ckptm" :: rl :: its :: vars :: files =>
+    match rl.toNat?, nats its ",", files.mapM parseCFile with
+    | some rl, some its, some files =>
+      let var := (vars.splitOn ",").flatMap AurelVerif.Gen.VarMaps.aurelToET
+      match readCheckpointsM AurelVerif.Gen.VarMaps.etToAurel files var its rl with
+      | some T =>
+        "ok it=" ++ ",".intercalate (T.its.map toString)
+          ++ String.join (T.cols.map fun kc => "|" ++ kc.1 ++ "=" ++ "/".intercalate (kc.2.map showCell))
+      | none => "err"
+    | _, _, _ => "bad-op"
+  | "gvar" :: cmax :: rl :: its :: vars :: files =>
+    match optNat cmax, rl.toNat?, nats its ",", files.mapM parseCFile with
+    | some cmax, some rl, some its, some files =>
+      let cm : CMax := match cmax with
+        | none => CMax.inFile
+        | some n => CMax.num n
+      match readGroupOrVar AurelVerif.Gen.VarMaps.etToAurel cm files (vars.splitOn ",") its rl with
+      | some (ts, cols) =>
+        "ok t=" ++ ",".intercalate (ts.map toString)
+          ++ String.join (cols.map fun kc => "|" ++ kc.1 ++ "=" ++ "/".intercalate (kc.2.map showArr3))
+      | none => "err"
+    | _, _, _, _ => "bad-op"
   | ["var2et", v] => "ok " ++ ",".intercalate (AurelVerif.Gen.VarMaps.aurelToET v)
   | ["et2var", v] => "ok " ++ AurelVerif.Gen.VarMaps.etToAurel v
   | ["comps", v] => "ok " ++ ",".intercalate (AurelVerif.Gen.VarMaps.tensorToScalar v)
